@@ -8,6 +8,14 @@ SEQ_NOTE = ("Trusted base: go/ssa lowering (x/tools v0.50.0), this repository's 
             "and the models/stubs listed in the evidence file. Claims hold within the stated bounds only.")
 
 checks = {
+ "C17": dict(level="other",
+   text="Bounded symbolic execution of pure/eq, pure/ord, pure/monoid, pure/semigroup: the Eq/Ord laws and the transparency of ContraMap/From/monoid constructors are SMT queries over all 64-bit ints, all byte strings up to the length bound (2 quick / 3 thorough) and uninterpreted base functions. Bounded (string length), not a proof.",
+   technique="symbolic execution of go/ssa + SMT (QF_UFBV), symbolic bounded strings",
+   ref="DESIGN.md §5 C17"),
+ "C19": dict(level="other",
+   text="Bounded symbolic execution of internal/seq list and slice traits side by side with a reference: all Cons/Tail scripts up to the step bound over two live registers, all element values, uninterpreted non-commutative fold monoid with symbolic identity; persistence is checked by re-reading every live register after every step.",
+   technique="symbolic execution of go/ssa with forked op scripts + SMT (QF_UFBV)",
+   ref="DESIGN.md §5 C19"),
  "C20": dict(level="other",
    text="Bounded symbolic execution of the real PipeN bodies (go/ssa) with N distinct uninterpreted functions and a symbolic argument; the SMT solver decides result == f_N(...f_1(a)) and exact call counts for every N in 2..20 (the whole API). Not a proof: decided per arity by congruence closure, no induction over N.",
    technique="symbolic execution of go/ssa + SMT (QF_UFBV), uninterpreted functions",
